@@ -55,6 +55,14 @@ func fixedCases() []corr.Case {
 		// ReWrite / NewSizedBuffer
 		mk("fixed-rewrite", "news 16", "cap", "len", "write 0000000068656c6c6f", "rewrite 0 00000005", "bytes", "rewrite 7 ffffffffff", "bytes", "rewrite 9 aa", "rewrite 10 aa", "rewrite -1 aa", "bytes"),
 		mk("fixed-rewrite", "new", "write 0102030405", "read 2", "rewrite 1 aabb", "bytes", "unreadbyte", "bytes", "rewrite 0 -", "rewrite 5 -", "rewrite 6 -"),
+		// NewSizedBuffer size classes (Len()==0, Cap() >= requested; the model gives Cap exactly) and large Grow across 4 MiB
+		mk("fixed-sized", "news 0", "cap", "len", "news 1", "cap", "news 63", "cap", "news 64", "cap", "news 65", "cap", "news 4095", "cap", "news 4096", "cap", "len"),
+		mk("fixed-sized", "news 1048576", "cap", "len", "write 0102", "cap", "news 4194303", "cap", "news 4194304", "cap", "len", "writebyte 01", "cap", "bytes"),
+		mk("fixed-sized", "news 4194305", "cap", "len", "write x0:100", "cap", "readbyte", "unreadbyte", "len"),
+		mk("fixed-sized", "news 16777216", "cap", "len", "writebyte 07", "cap", "news 67108864", "cap", "len", "writerune 8364", "cap", "bytes"),
+		mk("fixed-large-grow", "new", "grow 4194303", "cap", "writebyte 01", "grow 4194304", "cap", "off", "bytes"),
+		mk("fixed-large-grow", "new", "write 6162", "readbyte", "grow 4194305", "cap", "off", "write x1:70", "cap", "bytes"),
+		mk("fixed-large-grow", "news 4194304", "grow 4194304", "cap", "grow 4194305", "cap", "writebyte 01", "grow 16777216", "cap", "bytes"),
 		// malformed
 		mk("fixed-malformed", "new", "write 0", "write zz", "writebyte 0102", "writerune 2147483648", "read -1", "frobnicate", "readfrom 00 maybe 0", "writeto short", "new 1", "rewrite 1", "len 3", "len"),
 	}
@@ -303,10 +311,12 @@ func genCase(r *rng.R, tier string, i int) corr.Case {
 	n := r.Range(1, maxOps)
 	// init
 	switch {
+	case r.Chance(1, 60): // large pre-sizing across the 4 MiB boundary (allocation only; contents stay small)
+		g.emit("news " + strconv.Itoa(r.PickInt(1<<20, (4<<20)-1, 4<<20, (4<<20)+1, (4<<20)+r.Intn(1<<20), 16<<20, 64<<20)))
 	case class == "rewrite" && r.Chance(2, 3):
 		g.emit("news " + strconv.Itoa(r.PickInt(0, 1, 4, 16, 64, 100, r.Intn(200))))
 	case r.Chance(1, 8):
-		g.emit("news " + strconv.Itoa(r.PickInt(0, 1, 63, 64, 65, r.Intn(300), -1)))
+		g.emit("news " + strconv.Itoa(r.PickInt(0, 1, 63, 64, 65, 4095, 4096, r.Intn(300), r.Intn(10000), -1)))
 	case r.Chance(1, 7):
 		k := r.PickInt(0, 1, 3, 10, 64, r.Intn(100))
 		g.emit("newb " + g.payload(k) + " " + strconv.Itoa(r.PickInt(0, 0, 1, 5, 64, r.Intn(100))))
